@@ -43,6 +43,9 @@ func main() {
 	logDir := filepath.Join(scratch, "race-logs")
 	_ = os.MkdirAll(logDir, 0o755)
 	binDir := filepath.Join(root, ".bin")
+	if b := os.Getenv("VERIF_BIN"); b != "" {
+		binDir = b
+	}
 
 	quick := r.Quick()
 	units := []unit{
@@ -71,7 +74,11 @@ func main() {
 	// instrumented dependencies a one-off cost).
 	var built []unit
 	for _, u := range units {
-		cmd := exec.Command("go", "build", "-race", "-tags", "verif", "-o", filepath.Join(binDir, "race-"+u.id), "./cmd/"+u.id)
+		args := []string{"build", "-race", "-tags", "verif", "-o", filepath.Join(binDir, "race-"+u.id), "./cmd/" + u.id}
+		if mf := os.Getenv("VERIF_MODFILE"); mf != "" {
+			args = append([]string{"build", "-modfile=" + mf}, args[1:]...)
+		}
+		cmd := exec.Command("go", args...)
 		cmd.Dir = filepath.Join(root, "harness")
 		cmd.Env = append(os.Environ(), "GOFLAGS=-mod=mod", "GOPROXY=off")
 		if out, err := cmd.CombinedOutput(); err != nil {
